@@ -135,6 +135,17 @@ def install(I):
         I.shared_op(st, m, 'insert', objects.dashmap_insert_release(I.cur_tid, k, ident), {'held': 'bool'}, label='%s.insert' % name, info=('insert', k, ident))
         return I.ret(st, Opaque('RefMut'))
 
+    @M(r'^dashmap::OccupiedEntry::<.*>::insert$|^OccupiedEntry::<.*>::insert$', 'dashmap OccupiedEntry::insert (overwrite, the entry guard stays held)')
+    def m_dm_oinsert(I, st, f, args, fr):
+        e = deref_val(I, st, args[0])
+        if not (isinstance(e, Agg) and e.fields and isinstance(e.fields[0], Obj) and e.fields[0].kind == 'dashmap'):
+            return NotImplemented
+        m, k = e.fields[0], e.fields[1].concrete()
+        name = I.objinfo.get(m.oid, {}).get('name', str(m.oid))
+        ident = val_ident(I, st, m, args[1])
+        res = I.shared_op(st, m, 'insert', objects.dashmap_insert_held(I.cur_tid, k, ident), {'held': 'bool', 'val': 8}, label='%s.insert' % name, info=('insert', k, ident))
+        return I.ret(st, Opaque('mapval', info=res['val']))
+
     @M(r'^dashmap::OccupiedEntry::<.*>::(key|get)$|^OccupiedEntry::<.*>::(key|get)$', 'dashmap OccupiedEntry::{key,get}')
     def m_dm_okey(I, st, f, args, fr):
         e = deref_val(I, st, args[0])
